@@ -417,9 +417,9 @@ func main() {
 	logger.GetLogger("rsm").SetLevel(logger.CRITICAL)
 	switch a.Mode {
 	case "gen":
-		n := 1500
+		n := 12000
 		if a.Tier == "thorough" {
-			n = 60000
+			n = 400000
 		}
 		if a.N > 0 {
 			n = a.N
